@@ -283,10 +283,9 @@ impl AsyncFileSystem for AsyncMemoryFS {
 
     async fn remove_file(&self, path: &str) -> VfsResult<()> {
         let mut handle = self.handle.write().await;
-        handle
-            .files
-            .remove(path)
-            .ok_or(VfsErrorKind::FileNotFound)?;
+        let file = handle.files.get(path).ok_or(VfsErrorKind::FileNotFound)?;
+        ensure_file(file)?;
+        handle.files.remove(path);
         Ok(())
     }
 
